@@ -10,7 +10,7 @@ from kfv.rules.c07 import rule_def_flags
 
 TECHNIQUE = ('abstract interpretation of GPTNeoXKFACEigenLayer over named index spaces with shard / gathered axes and alias labels, one run per '
              'valuation of (parallelism, bias, mp > 1, primary); flag-partitioned definite assignment; SPMD guard rules for the GPT family; '
-             'sibling agreement of the dual reductions')
+             'sibling agreement of the dual reductions; averaging divisor of the factor reduction')
 EXPLANATION = (
     'kfac/gpt_neox cannot run here (no DeepSpeed); it is analysed statically.  preconditioned_grad is evaluated for all 12 consistent '
     'valuations of (input|output parallel) x (bias) x (mp>1) x (primary): the gathered gradient must have the unsharded layer\'s index '
@@ -19,7 +19,7 @@ EXPLANATION = (
     'every valuation, gathers/broadcasts name the layer\'s primary rank.  The helper advertises unsharded factor shapes; the gathered '
     'tensor (primary only) feeds the moments; the two factor reductions are mirror images; rank-dependent guards of collectives are '
     'justified (J2/J3) and stage-confined.  Known finding F10: the clip scale is computed from local shards only.  Equality with the '
-    'unsharded computation as values is not decided.')
+    'unsharded computation as values is not decided. The factor reduction is averaged over the group communicated on (AFF-AVG).')
 
 NOT_DECIDED = 'equality with the unsharded computation as values'
 
